@@ -286,7 +286,7 @@ func runC10(p *Program, r *Report) {
 			for _, b := range f.Blocks {
 				for _, in := range b.Instrs {
 					if st, ok := in.(*ssa.Store); ok {
-						if g, ok := st.Addr.(*ssa.Global); ok && g.Pkg == tableGlobal.Pkg && (g == tableGlobal || g.Name() == "controlChar") {
+						if g, ok := st.Addr.(*ssa.Global); ok && g.Pkg == tableGlobal.Pkg && (g == tableGlobal || cname(g) == "controlChar") {
 							r.Viol("C10.R3", cn+"#reassigned", p.Pos(st.Pos()), "table variable is reassigned in "+fnName(f), "")
 						}
 					}
